@@ -15,7 +15,9 @@ CONSTANTS MaxLen, ExportLen, LeafSet, XShapes, YShapes, ValSets, ReexAll, OpSet,
           ClassPairs,    \* TRUE: leaf pairs of one scale class (Reex) plus those listed in InitPairs
           RegPairs,      \* registries of the two leaves, as 10*rx+ry (1, 2: the two custom registries; 3: unyt's default registry)
           ReexReg,       \* TRUE: run B writes each leaf in the OTHER custom registry (same symbols, other sizes)
-          DTX, DTY       \* dtypes of the two leaves: "f8" "f4" "c16" "c8" "i8" "i4"
+          DTX, DTY,      \* dtypes of the two leaves: "f8" "f4" "c16" "c8" "i8" "i4" "i2" "i1" "u1"
+          MixedShapes,   \* TRUE: only leaf pairs of DIFFERENT shapes (one operand is broadcast against the other)
+          ResBound       \* bound on the numerators / denominators of a step's result (8192 wherever chains continue)
 
 UX(i, e6) == [k \in 1..NA |-> IF k = i THEN e6 ELSE 0]      \* exponent given x6
 U3(i, ei, j, ej, l, el) == [k \in 1..NA |-> IF k = i THEN 6 * ei ELSE IF k = j THEN 6 * ej ELSE IF k = l THEN 6 * el ELSE 0]
@@ -33,8 +35,11 @@ LeafCat == << UAtom(1), UAtom(2), UAtom(3), UAtom(4), UAtom(5), UAtom(6), UOne,
               \* 40..46: units whose quotient / product cancels only partly pair by pair: exponents 3/2 and -3/2 (the integer part
               \* cancels pairwise into the coefficient, the half power is left as a scaled dimensionless unit), and the compound
               \* velocity atom xva (xva*xlb against xlc*xla/xta: xlb/xlc cancels pairwise, xva*xta/xla only as a whole)
-              UX(2, 9), UX(3, 9), UX(3, -9), UX(1, 9), UAtom(31), U3(31, 1, 2, 1, 2, 0), U3(3, 1, 1, 1, 4, -1) >>
-NLeafCat == 46
+              UX(2, 9), UX(3, 9), UX(3, -9), UX(1, 9), UAtom(31), U3(31, 1, 2, 1, 2, 0), U3(3, 1, 1, 1, 4, -1),
+              \* 47..48: reciprocal lengths - a product with a length cancels completely into a whole-number coefficient
+              \* (xlb * 1/xla -> 32, xlb * 1/xlc -> 256; the km * 1/m of the power-of-two registry)
+              UX(1, -6), UX(3, -6) >>
+NLeafCat == 48
 IsAngle(u) == DV(u) = DAngle1
 Commens(i, j) == DV(LeafCat[i]) = DV(LeafCat[j])
 \* a leaf is re-expressed inside its scale class: commensurable units whose scale ratio is a small rational (so that the
@@ -59,10 +64,14 @@ FromDeg(v, u) == IF u = UAtom(LatAtom) THEN [i \in DOMAIN v |-> RSub(R(90), v[i]
 ToDeg(v, u) == IF u = UAtom(LatAtom) THEN [i \in DOMAIN v |-> RSub(R(90), v[i])] ELSE IF u = UAtom(LonAtom) THEN [i \in DOMAIN v |-> RAdd(v[i], R(180))] ELSE v
 XVals(u, s) == IF IsAngle(u) THEN (IF u = UAtom(12) THEN DegX(s) ELSE IF HasOffset(u) THEN FromDeg(DegX(s), u) ELSE StepX(s))
                ELSE CASE s = 1 -> <<R(7), <<-5, 2>> >> [] s = 2 -> <<R(-9), R(4)>> [] s = 3 -> <<R(64), R(96)>> [] s = 4 -> <<R(96), R(40)>> [] s = 5 -> <<R(2), R(8)>>
+                    \* 6, 7: small whole numbers (integer dtypes: the raw product fits int8 / int16, coefficient x product does not)
+                    [] s = 6 -> <<R(7), R(5)>> [] s = 7 -> <<R(100), R(90)>>
 YVals(u, s) == IF IsAngle(u) THEN (IF u = UAtom(12) THEN DegY(s) ELSE IF HasOffset(u) THEN FromDeg(DegY(s), u) ELSE StepY(s))
                ELSE CASE s = 1 -> <<R(3), R(2)>> [] s = 2 -> <<R(-2), <<5, 4>> >> [] s = 3 -> <<R(2), <<3, 2>> >> [] s = 4 -> <<R(4), R(3)>> [] s = 5 -> <<R(4), <<3, 2>> >>
+                    [] s = 6 -> <<R(3), R(2)>> [] s = 7 -> <<R(2), R(1)>>
 VB == 8192
 Bounded(v) == \A i \in DOMAIN v : IAbs(v[i][1]) <= VB /\ v[i][2] <= VB
+BoundedR(v) == \A i \in DOMAIN v : IAbs(v[i][1]) <= ResBound /\ v[i][2] <= ResBound
 RECURSIVE Pow2(_)
 Pow2(d) == d = 1 \/ (d % 2 = 0 /\ Pow2(d \div 2))
 DyadicVals(v) == \A i \in DOMAIN v : Pow2(v[i][2])
@@ -94,10 +103,13 @@ BareNum(p) == [k |-> "n", u |-> UOne, sv |-> SZero, rg |-> 0, cx |-> FALSE, dt |
 Init ==
   \E ix \in LeafSet, iy \in LeafSet, xs \in XShapes, ys \in YShapes, s \in ValSets, rp \in RegPairs, dtx \in DTX, dty \in DTY :
   \E jx \in Alt(ix), jy \in Alt(iy) :
+    (MixedShapes => xs # ys) /\
     (IF ClassPairs THEN Reex(ix, iy) \/ (100 * ix + iy) \in InitPairs ELSE InitPairs = {} \/ (100 * ix + iy) \in InitPairs) /\
     LET ux == LeafCat[ix]  uy == LeafCat[iy]  rx == rp \div 10  ry == rp % 10
-        rex == IF xs = "s" THEN <<XVals(ux, s)[1]>> ELSE XVals(ux, s)
-        rey == IF ys = "s" THEN <<YVals(uy, s)[1]>> ELSE YVals(uy, s)
+        \* shapes: "v" a 1-d array of two numbers, "s" a 0-d quantity, "o" a 1-d array holding ONE number (cfg.xs / cfg.ys
+        \* tell the harness which of the two one-number objects to build)
+        rex == IF xs \in {"s", "o"} THEN <<XVals(ux, s)[1]>> ELSE XVals(ux, s)
+        rey == IF ys \in {"s", "o"} THEN <<YVals(uy, s)[1]>> ELSE YVals(uy, s)
         vx == IF IsCx(dtx) THEN rex \o XImag(Len(rex)) ELSE rex
         vy == IF IsCx(dty) THEN rey \o YImag(Len(rey)) ELSE rey
         wx == Conv(vx, ux, LeafCat[jx], rx, OtherReg(rx))  wy == Conv(vy, uy, LeafCat[jy], ry, OtherReg(ry)) IN
@@ -136,7 +148,7 @@ Shapes(op, meth, A, B, unary) ==
   CASE op = "dot" -> Len(A.v) = 2 /\ Len(B.v) = 2
     [] meth = "call" /\ unary -> TRUE
     [] meth = "call" /\ CxCase(A, B) -> TRUE       \* InClaim demands equally many complex numbers on both sides
-    [] meth = "call" -> (Len(A.v) \in {1, 2} /\ Len(B.v) \in {1, 2}) \/ (Len(A.v) = 4 /\ Len(B.v) = 1)
+    [] meth = "call" -> (Len(A.v) \in {1, 2} /\ Len(B.v) \in {1, 2}) \/ (Len(A.v) = 4 /\ Len(B.v) = 1) \/ (Len(A.v) = 1 /\ Len(B.v) = 4)
     [] meth = "outer" -> Len(A.v) = 2 /\ Len(B.v) = 2
     [] meth \in {"reduce", "accumulate"} -> Len(A.v) = 2
 IsExact(op, meth, A, B, r) ==
@@ -147,12 +159,12 @@ IsExact(op, meth, A, B, r) ==
 No == [ok |-> FALSE, reg |-> Dummy]
 Run(op, meth, A, B, p, unary) ==
   IF ~(A.k \in {"q", "n"} /\ B.k \in {"q", "n", "x"} /\ (A.k = "q" \/ B.k = "q")) THEN No
-  ELSE IF ~Shapes(op, meth, A, B, unary) \/ ~InClaim(op, meth, A, B) THEN No
+  ELSE IF ~Shapes(op, meth, A, B, unary) \/ ~InClaim(op, meth, A, B) \/ ~IntFits(op, meth, A, B, p) THEN No
   ELSE IF op \in PowUn \cup {"power"} /\ ~(UPowOk(A.u, PowOf(op, p)[1], PowOf(op, p)[2]) /\ VDivOk(VScale(A.sv, PowOf(op, p)[1]), PowOf(op, p)[2])) THEN No
   ELSE IF op \in Discontinuous /\ ~((A.ex /\ B.ex) \/ Robust(op, meth, A, B)) THEN No
   ELSE IF RadianRaw(op, A, B) \/ ~SignedZeroFree(op, A, B) THEN No
   ELSE LET r == ImplStep(op, meth, A, B, p) IN
-       IF ~r.ok \/ ~Bounded(r.v) THEN No
+       IF ~r.ok \/ ~BoundedR(r.v) THEN No
        ELSE LET want == RefValsC(op, meth, A, B, p, r) IN
             IF ~AllOk(want) THEN No
             ELSE LET pure == RefValsC(op, meth, [A EXCEPT !.v = A.pv], [B EXCEPT !.v = B.pv], p, r) IN
@@ -210,7 +222,9 @@ Reduce == \E k \in RedKinds, a \in Idx : k[1] \in OpSet /\ Do(k[1], k[2], k[3], 
 OuterS == \E op \in OuterOps, a \in Idx, b \in Idx : Do(op, "outer", {"uf"}, a, b, ROne, FALSE)
 DotS == "dot" \in OpSet /\ \E a \in Idx, b \in Idx : Do("dot", "call", DotForms, a, b, ROne, FALSE)
 
-Next == Len(steps) < MaxLen /\ (Binary \/ Unary \/ Power \/ PowerX \/ Scalar \/ Reduce \/ OuterS \/ DotS)
+\* (an instance about operands of different shapes runs the steps that combine the two leaves: one-operand steps and bare
+\* factors are the other instances' business)
+Next == Len(steps) < MaxLen /\ (Binary \/ OuterS \/ DotS \/ (~MixedShapes /\ (Unary \/ Power \/ PowerX \/ Scalar \/ Reduce)))
 Spec == Init /\ [][Next]_vars
 
 (* ---- export ---- *)
